@@ -748,11 +748,10 @@ fn get_field_decorators(
                 None
             }
         })
-        .filter_map(|list: MetaList| match list.path.get_ident() {
-            Some(ident) if languages.contains(&ident.try_into().unwrap()) => {
-                Some((ident.try_into().unwrap(), list))
-            }
-            _ => None,
+        .filter_map(|list: MetaList| {
+            // a nested list that is not named after a supported language is not a decorator
+            let language = SupportedLanguage::try_from(list.path.get_ident()?).ok()?;
+            languages.contains(&language).then_some((language, list))
         })
         .map(|(language, list): (SupportedLanguage, MetaList)| {
             (
